@@ -70,9 +70,10 @@ PROPS["C01"] = {
     "theorem_kinds": {"C01_sequence_order_converges_5x3": "finite, kernel-checked enumeration (vm_compute), bound in the statement",
                       "C01_sequence_order_converges_6x2": "finite", "C01_sequence_order_converges_4x4": "finite",
                       "C01_integrated_set_is_schedule_independent": "unbounded", "C01_delete_sets_commute": "unbounded",
-                      "C01_full": "stated as a Definition, NOT proved unbounded for items with right origins (partial)"},
+                      "C01_sequence_order_converges": "unbounded: origin-forest invariant of reachable lists, the scan computes an index among the children of the origin, diamond lemma for two admissible insertions, induction on the history (Crdt/YataUnboundedProofs.v, 2 770 lines)",
+                      "C01_generated_histories_are_well_formed": "unbounded (links wf_history to the executable generator)"},
     "rule": HIST_RULE + "; implementation-only oracle at quiescence: all replicas expose the same content through the public read API (text diff with attributes, arrays, maps, XML tree with sorted attributes, nested types) and the same item order incl. tombstones",
-    "trusted_base": [_MODEL_NOTE, "the unbounded convergence of the ORDER of concurrent sequence insertions with right origins is not proved (no mechanised proof of the Yjs scan is known); it is covered by the finite theorems and by the per-step tombstone-order correspondence"],
+    "trusted_base": [_MODEL_NOTE, "order convergence is proved for one sequence of unit insertions (the setting of YataFinite.v); deletions are handled by the separate order-insensitivity theorems; nested types and map chains reuse the same insertion function per parent / key"],
     "modelled_not_verified": ["block-level integration (units of a block integrated atomically)", "BlockPicker order", "v2 encoding (the model consumes the v1 form of every update; v2 deliveries are checked by the implementation-only oracle)"],
     "assumptions": ["gc off and cleanup_formatting off on all replicas of these histories (C15 covers gc)", "embeds / format values are JSON-representable (they travel as JSON text)"],
     "coq_timeout": 2400,
